@@ -153,14 +153,13 @@ def bounded_wait(ctx: Ctx, rule: str) -> None:
                    len(handler_assigns) == 1, {}, "" if len(handler_assigns) == 1 else "the default status for a lost result is no longer 'error'")
     rets = [r for r in ast.walk(fn.node) if isinstance(r, ast.Return)]
     # False iff error/fail
-    last_if = [s for s in fn.node.body if isinstance(s, ast.If) and any(isinstance(x, ast.Return) for x in ast.walk(s))]
+    # the value returned at the end: true exactly for the statuses other than error / fail (any of the equivalent spellings)
     ok_ret = False
-    if last_if:
-        s = last_if[-1]
-        f = norm.formula(s.test)
-        ok_ret = f in (("atom", "test_status in ['error', 'fail']"), ("atom", "test_status in ['fail', 'error']"),
-                       ("atom", "test_status in ('error', 'fail')"), ("atom", "test_status in {'error', 'fail'}")) \
-            and ast.unparse(s.body[0]) == "return False" and s.orelse and ast.unparse(s.orelse[0]) == "return True"
+    last = fn.node.body[-1]
+    universe = ["pass", "warn", "fail", "error", "skip", "cancel", "interrupted", "unknown"]
+    if isinstance(last, ast.Return) and last.value is not None:
+        ts = norm.truth_set(last.value, "test_status", universe)
+        ok_ret = ts is not None and set(universe) - ts == {"error", "fail"}
     ctx.record(rule + "c", "TABLE", T.RTN, "run_test_node returns False iff the status is 'error' or 'fail'", ok_ret, {},
                "" if ok_ret else "the status to success mapping of run_test_node changed")
 
